@@ -76,6 +76,23 @@ def ceval(t, env):
         return a % b
     if k == 'neg':
         return (WRAP - ceval(t[1], env)) % WRAP
+    if k in ('<', '<=', '>', '>=', '==', '!=') and isinstance(t[1], tuple) and isinstance(t[2], tuple) and \
+            t[1][:1] == ('sel',) and t[2][:1] == ('sel',) and t[1][1] == t[2][1]:
+        # two elements of the same container: the same element if the positions coincide; otherwise
+        # the outcome is data (a free boolean, see check_accesses)
+        def key(x):
+            try:
+                return ceval(x, env)
+            except Unknown:
+                if isinstance(x, tuple) and len(x) == 3 and x[0] == 'sel':
+                    return ('sel', x[1], key(x[2]))
+                raise
+        i1, i2 = key(t[1][2]), key(t[2][2])
+        if i1 == i2:
+            return k in ('<=', '>=', '==')
+        if ('free', t) in env:
+            return env[('free', t)]
+        raise Unknown(T.pretty(t)[:80])
     if k in ('<', '<=', '>', '>=', '==', '!='):
         a, b = ceval(t[1], env), ceval(t[2], env)
         return {'<': a < b, '<=': a <= b, '>': a > b, '>=': a >= b, '==': a == b, '!=': a != b}[k]
@@ -140,6 +157,19 @@ def check_accesses(accesses, bound=24, min_size=1):
         ats = set()
         for t in terms:
             atoms_of(t, ats)
+        # positions inside comparisons of two elements of one container are integer terms too
+        for c in list(e['pc']) + [c2 for l in loops for c2 in l.get('pc', ())]:
+            for t in T.subterms(c):
+                if isinstance(t, tuple) and len(t) == 3 and t[0] in ('<', '<=', '>', '>=', '==', '!=') and \
+                        isinstance(t[1], tuple) and isinstance(t[2], tuple) and t[1][:1] == ('sel',) and \
+                        t[2][:1] == ('sel',) and t[1][1] == t[2][1]:
+                    for ix in (t[1][2], t[2][2]):
+                        while isinstance(ix, tuple) and len(ix) == 3 and ix[0] == 'sel':
+                            ats.discard(ix)
+                            ix = ix[2]
+                        atoms_of(ix, ats)
+                    ats.discard(t[1])
+                    ats.discard(t[2])
         loop_syms = [l['idx'] for l in loops]
         params = []
         unknown = []
@@ -181,9 +211,22 @@ def check_accesses(accesses, bound=24, min_size=1):
         cex = None
         assumed = False
         nchecked = 0
+        # comparisons of container elements in the path conditions are data: both outcomes are
+        # explored (except where the two positions coincide, which ceval decides)
+        free_atoms = []
+        for c in list(e['pc']) + [c2 for l in loops for c2 in l.get('pc', ())]:
+            for t in T.subterms(c):
+                if isinstance(t, tuple) and len(t) == 3 and t[0] in ('<', '<=', '>', '>=', '==', '!=') and \
+                        isinstance(t[1], tuple) and isinstance(t[2], tuple) and t[1][:1] == ('sel',) and \
+                        t[2][:1] == ('sel',) and t[1][1] == t[2][1] and t not in free_atoms:
+                    free_atoms.append(t)
+        if len(free_atoms) > 3:
+            free_atoms = free_atoms[:3]
         try:
             for svals in product(range(min_size, bound + 1), repeat=len(sizes)):
+              for fvals in product((True, False), repeat=len(free_atoms)):
                 env0 = dict(zip(sizes, svals))
+                env0.update({('free', a_): v_ for a_, v_ in zip(free_atoms, fvals)})
                 # positions: between the ends of the searched range
                 pranges = []
                 for a in poss:
@@ -241,13 +284,21 @@ def check_accesses(accesses, bound=24, min_size=1):
                         break
                 if cex is not None:
                     break
+              if cex is not None:
+                  break
         except Unknown as u:
             res.update(verdict='undecided', detail='cannot evaluate: %s' % u)
             out.append(res)
             continue
         if cex is not None:
-            wit = {T.pretty(k_)[:80] if isinstance(k_, tuple) else k_: (v if v < WRAP // 2 else v - WRAP)
-                   for k_, v in cex.items()}
+            wit = {}
+            for k_, v in cex.items():
+                if isinstance(k_, tuple) and k_ and k_[0] == 'free':
+                    wit['assuming ' + T.pretty(k_[1])[:100]] = bool(v)
+                elif isinstance(v, bool):
+                    wit[T.pretty(k_)[:80] if isinstance(k_, tuple) else k_] = v
+                else:
+                    wit[T.pretty(k_)[:80] if isinstance(k_, tuple) else k_] = (v if v < WRAP // 2 else v - WRAP)
             if assumed:
                 res.update(verdict='undecided', detail='index %s out of [0, %s) under a path condition that is '
                            'not an integer formula' % (wit.get('__index__'), wit.get('__size__')), witness=wit)
